@@ -413,7 +413,7 @@ def run(tier, seed, t0, only=None):
     n_roots = 40 if tier == 'quick' else 600
     n_prog = 60 if tier == 'quick' else 1500
     tasks = []
-    ch_timeout = 120 if tier == 'quick' else 600
+    ch_timeout = 400 if tier == 'quick' else 900  # a bound, not a cost (15-20 s)
     for f in ('prop_int_to_bits', 'prop_assign_bitvectors', 'prop_out_bits_to_ints'):
         tasks.append(dict(mod='vlib.chrun', fn='ch_task', kw=dict(module='vlib.ch.h13', func=f, timeout=ch_timeout, functions=FUNCS),
                           timeout=ch_timeout * 4 + 300, name=f'crosshair:{f}'))
